@@ -167,6 +167,36 @@ def cases(tier, seed):
                 yield {'ep': 'ctor_cores', 'd': d, 'pos': pos, 'how': how}
         for how in ('R_short', 'R_long', 'R_first', 'R_last'):
             yield {'ep': 'random', 'd': d, 'how': how}
+    # ---- operator reshape: same total element count, different row / column split
+    for (M, N) in (([2, 4], [3, 5]), ([2, 2], [3, 3]), ([6], [4])):
+        tot = int(np.prod(M)) * int(np.prod(N))
+        pm, pn = int(np.prod(M)), int(np.prod(N))
+        seen = set()
+        for m1 in range(1, tot + 1):
+            if tot % m1:
+                continue
+            for n1 in range(1, tot // m1 + 1):
+                if (tot // m1) % n1:
+                    continue
+                rest = tot // m1 // n1
+                for m2 in range(1, rest + 1):
+                    if rest % m2:
+                        continue
+                    n2 = rest // m2
+                    if (m1 * m2, n1 * n2) == (pm, pn):
+                        continue
+                    if max(m1, n1, m2, n2) > 15 or (m1, n1, m2, n2) in seen:
+                        continue
+                    seen.add((m1, n1, m2, n2))
+                    yield {'ep': 'reshape_ttm', 'M': M, 'N': N, 'shape': [[m1, n1], [m2, n2]]}
+        yield {'ep': 'reshape_ttm', 'M': M, 'N': N, 'shape': [[pn, pm]]}
+    # ---- mprod list form: mismatch at a non-first position
+    for d in (2, 3, 4):
+        N = [2, 3, 4, 5][:d]
+        for j in range(1, d):
+            for how in ('cols_plus1', 'cols_one'):
+                for order in ('sorted', 'reversed'):
+                    yield {'ep': 'mprod_list', 'N': N, 'j': j, 'how': how, 'order': order}
     for how in ('str', 'int', 'tuple_shape', 'empty_N'):
         yield {'ep': 'factory', 'how': how}
     for how in ('str', 'int', 'float', 'dict'):
@@ -534,6 +564,24 @@ def _ep_reshape(c, key):
     N, shp = c['N'], c['shape']
     a, ca = _t(N)
     return judge(key, 'reshape.numel', lambda: torchtt.reshape(a, shp), [a], must=True, doc=True)
+
+
+def _ep_reshape_ttm(c, key):
+    M, N = c['M'], c['N']
+    A, cA = _m(M, N)
+    shp = [tuple(t) for t in c['shape']]
+    return judge(key, 'reshape.operator.row_col_split', lambda: torchtt.reshape(A, shp), [A], must=True, doc=True)
+
+
+def _ep_mprod_list(c, key):
+    N, j, how = c['N'], c['j'], c['how']
+    a, ca = _t(N)
+    modes = list(range(len(N)))
+    mats = [torch.ones(2, N[k], dtype=torch.float64) for k in modes]
+    mats[j] = torch.ones(2, N[j] + 1, dtype=torch.float64) if how == 'cols_plus1' else torch.ones(2, 1, dtype=torch.float64)
+    if c['order'] == 'reversed':
+        modes, mats = modes[::-1], mats[::-1]
+    return judge(key, 'mprod.list.mismatch_not_first.' + how, lambda: a.mprod(mats, modes), [a], must=True, doc=True)
 
 
 def _ep_permute(c, key):
